@@ -87,11 +87,17 @@ def analyse(prop, root):
     near = lambda o, c: [x.split(":", 1)[1] for x in c.prog.dissolved if str(o.site).startswith(x.split(":", 1)[0] + ":")] or ["helpers of other modules"]
     if viol:
         # the first reading reports something: is it confirmed by the second?
-        rules2 = {o.rule for o in viol2}
+        keys2 = {(o.rule, str(o.site)) for o in viol2}
+        open2k = {(o.rule, str(o.site)) for o in und2 if hasattr(o, "rule")}
         changed = False
         for o in viol:
-            if o.rule in rules2 or o.rule in open2 or "*" in open2:
-                continue
+            site = str(o.site)
+            if (o.rule, site) in keys2 or "*" in open2:
+                continue        # confirmed, or the second reading as a whole is incomplete
+            if site not in ctx2.prog.functions and site not in ("<module>", "None"):
+                continue        # the function the finding sits in was itself dissolved: the second reading has nothing to set against it
+            if (o.rule, site) in open2k or (o.rule, "<module>") in open2k or (site in ("<module>", "None") and (o.rule in open2 or any(r_ == o.rule for r_, _ in keys2))):
+                continue        # the second reading leaves this very rule open at this place
             o.status = UNDECIDED
             o.detail += " [not confirmed: read again with %s inlined, rule %s holds everywhere - two readings of equivalent code disagree, so this is not reported as a violation]" % (
                 ", ".join(near(o, ctx2)[:6]), o.rule)
